@@ -40,9 +40,11 @@ def run_api_property(prop, tier, clauses, design=None, extra_assumptions=(), non
         else:
             sig = "run=%s stats=%s rows=%d inputs=%d" % (e["name"], json.dumps(e["stats"], sort_keys=True),
                                                         e["nrows"], e["ninputs"])
+            args = e["args"] if "args" in e else [x["arg"] for x in e.get("inputs", [])]
             rep.fail(clause, sig, detail={"stats": e["stats"], "cfg": e["cfg"], "nrows": e["nrows"],
-                                          "ninputs": e["ninputs"]}, group=clause,
-                     replay={"inputs": e["args"], "cfg": e["cfg"], "clause": clause})
+                                          "ninputs": e["ninputs"], "raised": e.get("raised", "")},
+                     group=clause + ("/cli" if e["ev"] == "cli" else ""),
+                     replay={"inputs": args, "cfg": e["cfg"], "clause": clause})
     # stage-level conformance of the recorded runs with Pipeline.tla (model drift, not a verdict)
     from harness import stage_trace
     wd = common.workdir("stage_%s_%d" % (prop, os.getpid()), fresh=True)
@@ -70,7 +72,7 @@ def run_api_property(prop, tier, clauses, design=None, extra_assumptions=(), non
     import shutil
     shutil.rmtree(wd, ignore_errors=True)
     rows = [e for e in events if e["ev"] == "row"]
-    runs = [e for e in events if e["ev"] == "run"]
+    runs = [e for e in events if e["ev"] in ("run", "cli")]
     lost = sum(max(0, r["ninputs"] - max(r["nrows"], 0)) for r in runs)
     total_in = sum(r["ninputs"] for r in runs)
     rep.extra["valid_input_rows_not_returned"] = lost
@@ -83,7 +85,7 @@ def run_api_property(prop, tier, clauses, design=None, extra_assumptions=(), non
     rep.extra.update({
         "rows_judged": len(rows),
         "runs": [{"name": r["name"], "inputs": r["ninputs"], "rows": r["nrows"], "cfg": r["cfg"],
-                  "stats": r["stats"], "wall_s": r["wall_s"]} for r in runs],
+                  "stats": r["stats"], "wall_s": r.get("wall_s", 0)} for r in runs],
         "clauses": sorted(clauses),
         "by_method": {m: sum(1 for e in rows if e["by"] == m) for m in
                       ("input-balanced", "rule-based", "mcs-based", "ABSENT")},
